@@ -10,4 +10,8 @@ mkdir -p bin evidence replays
 d=$(mktemp -d)
 /verif/bin/vcheck build "$d" >/dev/null
 rm -rf "$d"
+# engine selftest (toy programs with known bugs) and instrumentation fidelity (a subset of the
+# repository's own tests against the instrumented build, free-running mode)
+/verif/bin/vcheck selftest
+/verif/bin/vcheck fidelity --quick
 echo "verif setup ok"
